@@ -23,11 +23,14 @@ Spellings == { [form |-> "none"], [form |-> "nonspecific"], [form |-> "verbatim"
 Kinds == {"scalar", "seq", "map"}
 VARIABLES docs, keep, done
 vars == <<docs, keep, done>>
-DocChoices(first) == [dirs : (IF first \/ Full THEN DirLists ELSE DirListsSmall), yaml : BOOLEAN, sp : Spellings, kind : (IF first \/ Full THEN Kinds ELSE {"scalar"})]
+\* bare: the document has no '---' line (only after a document that ended with '...', and without directives)
+DocChoices(first) == [dirs : (IF first \/ Full THEN DirLists ELSE DirListsSmall), yaml : BOOLEAN, sp : Spellings, kind : (IF first \/ Full THEN Kinds ELSE {"scalar"}),
+                      bare : (IF first THEN {FALSE} ELSE BOOLEAN)]
 Init == docs = <<>> /\ keep \in BOOLEAN /\ done = FALSE
 AddDoc == /\ ~done /\ Len(docs) < Docs
           /\ \E d \in DocChoices(docs = <<>>) :
                /\ (keep /\ docs # <<>>) => d.dirs = <<>>
+               /\ d.bare => (d.dirs = <<>> /\ ~d.yaml)
                /\ docs' = Append(docs, d)
           /\ UNCHANGED <<keep, done>>
 Finish == /\ ~done /\ docs # <<>> /\ done' = TRUE /\ UNCHANGED <<docs, keep>>
@@ -36,8 +39,14 @@ Next == AddDoc \/ Finish
 \* ---- rendering ----
 RECURSIVE DirText(_, _)
 DirText(tbl, i) == IF i > Len(tbl) THEN <<>> ELSE <<"%", "T", "A", "G", " ">> \o tbl[i][1] \o <<" ">> \o tbl[i][2] \o <<"\n">> \o DirText(tbl, i + 1)
+BareNodeText(d) ==
+  LET sp == Spell(d.sp) pre == IF sp = <<>> THEN <<>> ELSE sp \o <<" ">> IN
+  IF d.kind = "scalar" THEN pre \o <<"v", "\n">>
+  ELSE IF d.kind = "seq" THEN pre \o <<"[", "a", "]", "\n">>
+  ELSE (IF sp = <<>> THEN <<>> ELSE sp \o <<"\n">>) \o <<"k", ":", " ", "v", "\n">>
 NodeText(d) ==
   LET sp == Spell(d.sp) pre == IF sp = <<>> THEN <<>> ELSE <<" ">> \o sp IN
+  IF d.bare THEN BareNodeText(d) ELSE
   IF d.kind = "scalar" THEN <<"-", "-", "-">> \o pre \o <<" ", "v">> \o <<"\n">>
   ELSE IF d.kind = "seq" THEN <<"-", "-", "-">> \o pre \o <<" ", "[", "a", "]">> \o <<"\n">>
   ELSE <<"-", "-", "-">> \o pre \o <<"\n">> \o <<"k", ":", " ", "v">> \o <<"\n">>
